@@ -171,7 +171,16 @@ func (g *c07Gen) update() jast.Node {
 
 func (g *c07Gen) delete() jast.Node {
 	r := g.r
-	switch r.Intn(8) {
+	switch r.Intn(9) {
+	case 8:
+		// names that depend on the object they are deleted from: evaluated for
+		// every matched object, not once
+		g.tags["delete:depends-on-the-object"] = true
+		cond := &jast.Cond{If: &jast.Bin{Op: "=", L: &jast.Name{V: "k"}, R: &jast.Str{V: "x"}}, Then: &jast.Str{V: "v"}, Else: &jast.Str{V: "k"}}
+		if r.Bool() {
+			return &jast.Array{Items: []jast.Node{cond, &jast.Str{V: "zz"}}}
+		}
+		return &jast.Array{Items: []jast.Node{&jast.Cond{If: &jast.Bin{Op: ">", L: &jast.Name{V: "v"}, R: &jast.Num{V: 1}}, Then: &jast.Str{V: "k"}, Else: &jast.Str{V: "b"}}}}
 	case 0, 1, 2:
 		return nil
 	case 3:
